@@ -136,6 +136,10 @@ def mon_history(scn, s, ctx, why):
             first_other = next((n for n in nn if n not in ("EVT_FSM_TRANSITION",)), None)
             if conn[0] != "EVT_CONN_OPEN":
                 v.append((f"{side}-conn-first-{conn[0]}", f"{scn.name}: {side} first connection event is {conn[0]}"))
+            elif side == "acc" and names[0] != "EVT_CONN_OPEN":
+                # an acceptor association exists because a connection was opened: nothing at all - not
+                # even a state-machine transition - is notified before EVT_CONN_OPEN
+                v.append((f"{side}-open-not-first-{names[0]}", f"{scn.name}: {side} {names[0]} notified before EVT_CONN_OPEN"))
             elif first_other != "EVT_CONN_OPEN":
                 v.append((f"{side}-open-not-first-{first_other}", f"{scn.name}: {side} {first_other} notified before EVT_CONN_OPEN"))
             ncl = conn.count("EVT_CONN_CLOSE")
